@@ -8,6 +8,10 @@ import traceback
 
 from .common import REPO, SEED, VERIF, MachineryError, Timer, repo_head, sha
 
+# evidence/ and replays/ live under /verif; tools/mutant_matrix.sh redirects them so that runs against changed trees
+# never overwrite the evidence of the tree under test
+OUT = os.environ.get("VERIF_OUT") or VERIF
+
 TAU = {  # DESIGN.md 4.3
     "length": 1e-9, "point": 1e-9, "area": 1e-9, "volume": 1e-9, "inertia": 1e-9,
     "dimensionless": 1e-9, "angle": 1e-9, "formfactor": 1e-8, "miniball": 1e-7,
@@ -108,7 +112,7 @@ class Ctx:
             return
         rec = {"property": self.pid, "tier": self.tier, "seed": self.seed, "repo_head": repo_head(),
                "signature": sig, "detail": detail}
-        d = os.path.join(VERIF, "replays", self.pid)
+        d = os.path.join(OUT, "replays", self.pid)
         os.makedirs(d, exist_ok=True)
         path = os.path.join(d, sha(rec["signature"]) + "-" + sha(detail) + ".json")
         with open(path, "w") as fh:
@@ -155,8 +159,8 @@ class Ctx:
         ev = {"property_id": self.pid, "tier": self.tier, "seed": self.seed, "level": level,
               "coverage": cov, "assumptions": list(assumptions), "wall_s": self.timer.s(),
               "violations": len(seen)}
-        os.makedirs(os.path.join(VERIF, "evidence"), exist_ok=True)
-        with open(os.path.join(VERIF, "evidence", f"{self.pid}.json"), "w") as fh:
+        os.makedirs(os.path.join(OUT, "evidence"), exist_ok=True)
+        with open(os.path.join(OUT, "evidence", f"{self.pid}.json"), "w") as fh:
             json.dump(ev, fh, indent=1, default=_default)
         print(f"{self.pid} {self.tier}: states={self.states} transitions={self.transitions} "
               f"impl_runs={self.traces} evaluations={self.evaluations} distinct={len(self.keys)} "
